@@ -61,3 +61,18 @@ theorem C16_rowwise {α β : Type} (g : α → β) (xs : List α) (chunks : List
   rowwise g xs chunks hc done hperm
 
 end TFV.Split
+
+namespace TFV.Split
+
+/-- the parallel and the serial evaluation path return the same normalised fitness vector and
+    count the same number of evaluations — for minimisation and maximisation alike — whenever the
+    cut points partition the population (C16_split) -/
+theorem C16_getFitness {α : Type} (minimization : Bool) (f : α → Int) (pop : List α) (cs : List Nat)
+    (hc : (split pop cs).flatten = pop) :
+    getFitness true minimization f pop cs = getFitness false minimization f pop cs := by
+  unfold getFitness
+  have h : ((split pop cs).map (List.map f)).flatten = pop.map f := by
+    rw [← List.map_flatten, hc]
+  simp [h]
+
+end TFV.Split
